@@ -19,7 +19,7 @@ from . import c05
 LEVEL = "exploration"
 RULE = (
     "kernels around and above the 50-line threshold: generated dependency kernels (10-24 dense lines) padded with independent "
-    "lines to 49/50/51/64/90 lines, unpadded ones (forced onto the multi-process path), padded shipped kernels; worker counts "
+    "lines to 49/50/51/64/90 lines, unpadded ones (forced onto the multi-process path), padded shipped kernels, kernels with label/comment/directive lines, short kernels with a recurrence and independent by-passes (single- vs forced multi-process search); worker counts "
     "{1,2,3,5,16,len+7}; per worker seeded delays of 0-60 ms before and after its enumeration so that completion orders vary. "
     "Non-trivial: the kernel has >= 2 loop-carried dependencies and the run used >= 2 non-empty worker sections; distinct by "
     "digest of (kernel, worker count, delay seed). Evidence lists the distinct completion orders observed"
